@@ -459,6 +459,8 @@ func (s *Sim) Step(op *Op) {
 		s.opCodec(op)
 	case KQMisuse:
 		s.opQMisuse(op)
+	case KRegistry:
+		s.opRegistry(op)
 	default:
 		bug("unknown op kind %q", op.K)
 	}
